@@ -18,7 +18,7 @@ def registry():
     from . import rel_props
     reg = {}
     reg.update(rel_props.CHECKS)
-    for modname in ("sm_props", "rel_more", "expr_props", "misc_props"):
+    for modname in ("sm_props", "rel_more", "expr_props", "lex_props", "rec_props", "misc_props"):
         if not os.path.exists(os.path.join(os.path.dirname(__file__), modname + ".py")):
             continue
         mod = __import__("harness." + modname, fromlist=["CHECKS"])
